@@ -18,7 +18,10 @@ Environment, never logic, is replaced:
    (the handlers need a database, a scheduler ...); dawgie.security._certs
    holds a real self-signed certificate or nothing; the transport offers
    getPeerCertificate or not; dawgie.context.sanction_override names the
-   built-in hook, a hook that raises, or something that cannot be resolved.
+   built-in hook, a hook that raises, something that cannot be resolved, or a
+   site hook that returns the Python value TLC chose for the situation
+   (case["ans"]: True, 1, "yes" / False, None, 0, "", [] -- a hook is any
+   callable, nothing makes it answer with a bool).
 
 VERIF_C19_MUTANT=<name> applies an in-memory mutant of the code under test
 (selftest of the binding; nothing is written to the repository).
@@ -76,6 +79,9 @@ def apply_mutant(name):
                 return True
 
         dawgie.security.sanctioned = sanctioned
+    elif name == 'no_is_only_false':  # the value of the hook is forwarded as "granted unless literally False"
+        orig_s = dawgie.security.sanctioned
+        dawgie.security.sanctioned = lambda endpoint, cert: orig_s(endpoint, cert) is not False
     else:
         raise ValueError('unknown mutant ' + name)
 
@@ -244,6 +250,17 @@ class AccessWorld:
         'noattr': 'dawgie.security.verif_c19_no_such_hook',
         'empty': '',
     }
+    # what a site hook may hand back (FrontEnd!Truthy / FrontEnd!Falsy); fresh objects per call
+    ANSWERS = {
+        'True': lambda: True,
+        'one': lambda: 1,
+        'str': lambda: 'yes',
+        'False': lambda: False,
+        'None': lambda: None,
+        'zero': lambda: 0,
+        'estr': lambda: '',
+        'elist': lambda: [],
+    }
 
     def __init__(self):
         self.calls = []
@@ -255,7 +272,16 @@ class AccessWorld:
         def raises(endpoint, cert):
             raise RuntimeError('access hook failed')
 
+        self.answer = 'n/a'  # what the site hook has to say in the case at hand (chosen by TLC)
+        self.answers = []  # what it did say, per consultation
+
+        def site(endpoint, cert):
+            value = self.ANSWERS[self.answer]()
+            self.answers.append(self.answer)
+            return value
+
         mod.raises = raises
+        mod.site = site
         sys.modules['verif_c19_hooks'] = mod
         self.client = twisted.internet.ssl.Certificate.loadPEM(self_signed_pem())
         TlsCert.cert = self.client.original  # what a TLS transport returns: the X509 object
@@ -280,21 +306,28 @@ class AccessWorld:
 
     def run_case(self, case):
         dawgie.security._certs[:] = [self.client] if case['certs'] else []
-        dawgie.context.sanction_override = self.HOOKS[case['hook']]
+        if case['hook'].startswith('site_'):
+            dawgie.context.sanction_override = 'verif_c19_hooks.site'
+            self.answer = case['ans']
+        else:
+            dawgie.context.sanction_override = self.HOOKS[case['hook']]
+            self.answer = 'n/a'
         tcls = TRANSPORTS[case['tr']]
         path = tuple(case['e'])
         target = '/' + '/'.join(path)
         obs = {}
         del self.calls[:]
+        del self.answers[:]
         req = Request(case['m'], target, tcls())
         try:
             self.eps[path].render(req)
         except Exception:  # pylint: disable=broad-exception-caught
             req.code = -1
-        obs['render'] = {'ran': bool(self.calls), 'code': req.code, 'who': sorted(set(self.calls))}
+        obs['render'] = {'ran': bool(self.calls), 'code': req.code, 'who': sorted(set(self.calls)), 'answers': sorted(set(self.answers))}
         del self.calls[:]
+        del self.answers[:]
         status, _raw = http(self.site, case['m'], target, tcls)
-        obs['http'] = {'ran': bool(self.calls), 'code': status, 'who': sorted(set(self.calls))}
+        obs['http'] = {'ran': bool(self.calls), 'code': status, 'who': sorted(set(self.calls)), 'answers': sorted(set(self.answers))}
         st = {'clients': len(dawgie.security.clients())}
         assert (st['clients'] > 0) == case['certs']
         return {'ev': 'Access', 'args': case, 'st': st, 'obs': obs}
